@@ -376,7 +376,8 @@ func (g *genCtx) genDecorator(s int) *Func {
 		} else {
 			continue
 		}
-		if seen[k] || IsIface(k.T) {
+		if IsIface(k.T) || (seen[k] && !g.r.P(g.ft.PDup)) {
+			// (the same key twice in one decorator: must be rejected as a whole)
 			continue
 		}
 		if g.m.S[s].Dec[k] != nil && !g.r.P(g.ft.PDup) {
